@@ -17,7 +17,8 @@ ALLOWED_AXIOMS = {"propext", "Classical.choice", "Quot.sound"}
 TRUSTED_BASE = [
     "Lean 4.33.0 kernel (thorough tier: leanchecker re-check of the compiled modules)",
     "axioms allowed per theorem: propext, Classical.choice, Quot.sound (audited on every run); no sorry/admit/native_decide/user axioms",
-    "hand-written Lean model of the crate tied to /repo by (a) operator tables regenerated from src/op/mod.rs by tools/extract_tables.py, (b) the differential correspondence check of this run (real crate in-process vs model driver), (c) static source audits",
+    "hand-written Lean model of the crate tied to /repo by (a) operator tables, constants and arity predicates regenerated from src/op/mod.rs / src/js_op.rs by tools/extract_tables.py, (b) the bodies of the crate's functions re-translated from the current source by tools/rs2lean.py (parser tools/rsparse.py) into lean/JL/Generated/Fns.lean, with a tie theorem JL.Tie.<fn> per function proving the translation equal to the model's function for every input, (c) the differential correspondence check of this run (real crate in-process vs model driver), (d) static source audits",
+    "the translation takes on trust: lean/JL/Rs.lean (meaning of each Rust std / serde_json call, one Lean definition per call), erasure of references/clones/iterator plumbing/integer widths (overflow not visible), Result<_,Error> as Option or the outcome monad M (which error is not modelled), std::ptr::eq = false, strict evaluation order of lets/folds as coded in Rs.strict/Rs.foldM; the recursive knot Parsed::from_value / evaluate is the model's check / run",
     "modelled, not verified: serde_json Value/Number/Map, zmij float printing, Rust std (f64 arithmetic, f64::from_str, i64::from_str, char/str methods), LLVM/CPU IEEE-754, 64-bit usize",
     "tools/*.py (generators, comparison, shrinking) and harness/src/main.rs",
 ]
@@ -213,13 +214,63 @@ def strip_lean_comments(src):
     return re.sub(r"--[^\n]*", "", src)
 
 
-def proof_side(pid, tier):
+def tie_module(rs):
+    return "tables" if rs.startswith("table:") else rs
+
+
+def tie_side(pid, fn_status, res):
+    """the tie theorems `JL.Tie.<fn> : Gen.<fn> = model's <fn>` for the functions behind this property, re-checked against the
+    definitions regenerated from the current source; returns the list of tie modules that built"""
+    mine = {rs: st for rs, st in fn_status.items() if pid in st.get("props", [])}
+    res["tie_functions"] = {}
+    built = []
+    todo = []
+    for rs, st in sorted(mine.items()):
+        if not st.get("translated"):
+            res["tie_functions"][rs] = "not translated (%s): tied by the correspondence streams only" % st.get("reason", "?")[:200]
+            continue
+        if not os.path.exists(os.path.join(jl.LEAN, "JL", "Tie", tie_module(rs) + ".lean")):
+            res["tie_functions"][rs] = "translated; no tie theorem yet"
+            continue
+        todo.append(rs)
+    res["lost_translation"] = [rs for rs, st in sorted(mine.items()) if not st.get("translated") and os.path.exists(os.path.join(jl.LEAN, "JL", "Tie", tie_module(rs) + ".lean"))]
+    if not todo: return built
+    ok, out = jl.lake_build(sorted({"JL.Tie." + tie_module(rs) for rs in todo}))
+    failed = set(re.findall(r"✖ \[\d+/\d+\] Building JL\.Tie\.(\w+)", out))
+    gen_failed = re.search(r"✖ \[\d+/\d+\] Building JL\.(Generated\.Fns|Rs)\b", out) is not None
+    for rs in todo:
+        st = mine[rs]
+        tm = tie_module(rs)
+        if gen_failed:
+            res["tie_functions"][rs] = "generated definitions do not build"
+        elif tm in failed:
+            m = re.search(r"error: JL/Tie/%s\.lean:(\d+):\d+: ([^\n]*)" % re.escape(tm), out)
+            res["tie_functions"][rs] = "BROKEN"
+            res["problems"].append("tie theorem JL.Tie.%s no longer checks: `%s` in %s, as translated from the current source, is not provably the model's `%s` any more (%s)"
+                                   % (tm, rs, st.get("file", "?"), st.get("model", "?"), (m.group(2)[:160] if m else "see build log")))
+            res.setdefault("broken_ties", []).append(rs)
+        elif not ok and not os.path.exists(os.path.join(jl.LEAN, ".lake", "build", "lib", "lean", "JL", "Tie", tm + ".olean")):
+            # did not build because something it imports failed: report against the root failure only
+            res["tie_functions"][rs] = "not re-checked (a tie theorem it depends on is broken)"
+            res.setdefault("broken_ties", []).append(rs)
+        else:
+            res["tie_functions"][rs] = "proved"
+            if tm not in built: built.append(tm)
+    if gen_failed:
+        res["problems"].append("lean/JL/Generated/Fns.lean (translated function bodies) does not build: " + out[-600:])
+    if not ok and not failed and not gen_failed:
+        res["problems"].append("tie theorems could not be built: " + out[-600:])
+    return built
+
+
+def proof_side(pid, tier, fn_status=None):
     """returns dict(ok, obligations=[names], discharged=[names], problems=[...], build_log)"""
     res = dict(ok=False, obligations=[], discharged=[], problems=[], axioms={})
     ok, out = jl.lake_build(modules_of(pid) + ["jldrv"])
     if not ok:
         res["problems"].append("lake build JL.Props.%s failed:\n%s" % (pid, out[-3000:]))
         return res
+    tie_built = tie_side(pid, fn_status or {}, res)
     # forbidden constructs in any model/proof source (comments stripped)
     for root, _, files in os.walk(os.path.join(jl.LEAN, "JL")):
         for f in files:
@@ -230,8 +281,8 @@ def proof_side(pid, tier):
                         res["problems"].append("forbidden construct in %s: %s" % (f, ln.strip()[:80]))
     os.makedirs(os.path.join(jl.BUILD, "tmp"), exist_ok=True)
     af = os.path.join(jl.BUILD, "tmp", "audit_%s.lean" % pid)
-    open(af, "w").write(AUDIT_TEMPLATE % dict(pid=pid, imports="\n".join("import " + m for m in modules_of(pid)),
-                                             audits="\n".join("#audit_ns JL.Props." + n for n in PROP_NAMESPACES.get(pid, [pid]))))
+    open(af, "w").write(AUDIT_TEMPLATE % dict(pid=pid, imports="\n".join("import " + m for m in modules_of(pid) + ["JL.Tie." + t for t in tie_built]),
+                                             audits="\n".join(["#audit_ns JL.Props." + n for n in PROP_NAMESPACES.get(pid, [pid])] + ["#audit_ns JL.Tie." + t for tb in tie_built for t in (["eager_table", "lazy_table", "data_table", "table_keys"] if tb == "tables" else [tb])])))
     rc, out = jl.sh(["lake", "env", "lean", af], cwd=jl.LEAN, timeout=1800)
     for m in re.finditer(r"THEOREM (\S+) AXIOMS \[(.*?)\]", out):
         name = m.group(1)
@@ -824,6 +875,9 @@ def main():
     tie_ok, tie_msg = jl.regen_tables()
     if not tie_ok:
         problems.append(dict(what="translator", detail="operator tables of src/op/mod.rs can no longer be extracted: " + tie_msg))
+    fn_ok, fn_msg, fn_status = jl.regen_fns()
+    if not fn_ok:
+        problems.append(dict(what="translator", detail="function translator failed: " + fn_msg[-600:]))
     import audits
     audit_res = audits.run(pid)
     for p in audit_res["problems"]:
@@ -831,8 +885,10 @@ def main():
     if os.environ.get("VERIF_SKIP_PROOF"):      # development aid only (never used by MANIFEST commands): skip the Lean build/audit
         proof = dict(ok=True, obligations=["<skipped>"], discharged=["<skipped>"], problems=[], axioms={})
         jl.lake_build(["jldrv"])
+        if os.environ.get("VERIF_TIES"):        # development aid: only the tie theorems
+            tie_side(pid, fn_status, proof)
     else:
-        proof = proof_side(pid, tier)
+        proof = proof_side(pid, tier, fn_status)
     for p in proof["problems"]:
         problems.append(dict(what="proof", detail=p))
 
@@ -841,7 +897,16 @@ def main():
         profiles = ["dev", "release"] + (["relchk", "devwrap"] if tier == "thorough" else [])
         runner = Runner(profiles)
         ex = Explore(pid, tier, seed, runner)
-        explore(pid, tier, seed, ex)
+        if not os.environ.get("VERIF_NO_EXPLORE"):        # development aid only: look at the proof / tie side alone
+            explore(pid, tier, seed, ex)
+            # a function behind this property is no longer tied by translation + proof (its tie theorem broke, or it left the translated
+            # subset): the correspondence streams are its only tie now - look harder before concluding anything
+            weak = list(proof.get("broken_ties", [])) + list(proof.get("lost_translation", []))
+            if weak and not ex.violations:
+                for extra in (seed + 101, seed + 202):
+                    if ex.violations or time.time() - t0 > 600: break
+                    ex.notes.append("extra exploration with seed %d because the translation tie is gone for: %s" % (extra, ", ".join(sorted(set(weak)))))
+                    explore(pid, tier, extra, ex)
     except jl.BuildError as e:
         problems.append(dict(what="build", detail=str(e)[:3000]))
     except Exception as e:
@@ -892,7 +957,7 @@ def main():
                samples=ex.samples if ex else [], exhaustive=False,
                outcomes=dict(ex.outcomes) if ex else {}, partition_coverage=dict(sorted(ex.cells.items())) if ex else {}, operator_histogram=dict(ex.ops.most_common()) if ex else {},
                disagreements_attributed_elsewhere=[dict(owner=f["owner"], case=f["case"], impl=f["impl"], model=f["model"]) for f in (ex.foreign[:10] if ex else [])],
-               tie=dict(tables=tie_msg, audits=audit_res["summary"]), diff_guidance=getattr(ex, "hints", None) if ex else None, proof_problems=[p["detail"][:300] for p in problems], notes=ex.notes if ex else [],
+               tie=dict(tables=tie_msg, audits=audit_res["summary"], functions=proof.get("tie_functions", {}), function_translator=fn_msg.split("\n")[0] if fn_msg else ""), diff_guidance=getattr(ex, "hints", None) if ex else None, proof_problems=[p["detail"][:300] for p in problems], notes=ex.notes if ex else [],
                leanchecker=proof.get("leanchecker", "not run in this tier"),
                spec_validation_against_v8=spec_val if spec_val is not None else "not applicable to this property")
     ev = dict(property_id=pid, tier=tier, seed=seed, level="proof", coverage=cov, wall_s=round(wall, 1), violations=len(new_viol),
